@@ -26,6 +26,8 @@ import (
 	"encoding/json"
 	"fmt"
 	"math"
+	"net/http"
+	"net/http/httptest"
 	"path"
 	"sort"
 	"strconv"
@@ -35,6 +37,8 @@ import (
 	"time"
 
 	"github.com/pingcap/kvproto/pkg/pdpb"
+	"github.com/tikv/pd/server"
+	"github.com/tikv/pd/server/api"
 	"github.com/tikv/pd/server/kv"
 	"pdverif/livesrv"
 	"pdverif/vkit"
@@ -54,6 +58,7 @@ func TestReplay(t *testing.T) { defer livesrv.Shutdown(); vkit.RunReplay(t) }
 
 func init() {
 	vkit.Register("concurrent", vkit.N{Quick: 2000, Thorough: 48000}, genConc, func(c ConcCase) (vkit.Info, error) { i, e := runConc(c); return dedupe(i), e })
+	vkit.Register("svcrace", vkit.N{Quick: 1600, Thorough: 40000}, genRace, func(c RaceCase) (vkit.Info, error) { i, e := runRace(c); return dedupe(i), e })
 	vkit.Register("service", vkit.N{Quick: 2000, Thorough: 60000}, genSvc, func(c SvcCase) (vkit.Info, error) { i, e := runSvc(c); return dedupe(i), e })
 }
 
@@ -475,6 +480,283 @@ func TestFinding_service_id_path_join(t *testing.T) {
 		e1, g1.GetSafePoint(), ge1, e2, g2.GetSafePoint(), ge2))
 }
 
+// ------------------------------------------------------------ HTTP API in-process
+
+var (
+	apiMu   sync.Mutex
+	apiFor  *server.Server
+	apiHand http.Handler
+)
+
+// apiDo serves one request through the real API router ON THE CALLING GOROUTINE (so that the storage
+// operations of the handler are the caller's: they park at the gate of a schedule).
+func apiDo(fx *livesrv.Fixture, method, path string) (int, string) {
+	apiMu.Lock()
+	if apiFor != fx.Svr {
+		h, _, err := api.NewHandler(context.Background(), fx.Svr)
+		if err != nil {
+			apiMu.Unlock()
+			return 0, err.Error()
+		}
+		apiFor, apiHand = fx.Svr, h
+	}
+	h := apiHand
+	apiMu.Unlock()
+	rec := httptest.NewRecorder()
+	h.ServeHTTP(rec, httptest.NewRequest(method, path, nil))
+	return rec.Code, rec.Body.String()
+}
+
+// rawServices is the raw listing of the stored service entries (keys and values as stored).
+func rawServices(b kv.Base) string {
+	ks, vs, err := b.LoadRange(prefixService, "gc/safe_point/service0", 0)
+	if err != nil {
+		return "unreadable: " + err.Error()
+	}
+	var sb strings.Builder
+	for i := range ks {
+		fmt.Fprintf(&sb, "%q=%s ", ks[i], vs[i])
+	}
+	return sb.String()
+}
+
+// ------------------------------------------------------------ (c) service safe points under a schedule
+//
+// "svcrace": gRPC service updates, HTTP list requests and HTTP deletes, one goroutine each, parked at
+// their invocation and at every storage operation and released in the order drawn with the case; some
+// entries are stored already expired. Every id is the target of at most one update/delete per case, so
+// at quiescence: a registration that was acknowledged and found stored right after its acknowledgement
+// must still be stored (nobody else was asked to touch that id; only EXPIRED entries may be purged by
+// other requests); gc_worker exists with unlimited lifetime; a final update's minimum is not above any
+// live stored service.
+
+type RaceTask struct {
+	Kind string `json:"k"` // update | list | delete
+	ID   int    `json:"id,omitempty"`
+	D    int    `json:"d,omitempty"` // update: safe point = stored minimum at start + D
+}
+
+type RaceCase struct {
+	Seeds []Seed     `json:"seeds"`
+	Tasks []RaceTask `json:"tasks"`
+	Sched []int      `json:"sched"`
+}
+
+func genRace(t *rapid.T) RaceCase {
+	var c RaceCase
+	ids := rapid.Permutation([]int{0, 1, 2, 3, 4}).Draw(t, "seedIDs")
+	for i, n := 0, rapid.IntRange(1, 4).Draw(t, "seeds"); i < n; i++ {
+		c.Seeds = append(c.Seeds, Seed{ID: ids[i], SP: uint64(rapid.IntRange(0, 9).Draw(t, "seedSP")),
+			Exp: rapid.SampledFrom([]string{"expired", "expired", "live", "inf"}).Draw(t, "seedExp")})
+	}
+	targets := rapid.Permutation([]int{1, 2, 3, 4, 0}).Draw(t, "targets") // each id at most once
+	nMut := rapid.IntRange(1, 3).Draw(t, "mutators")
+	if rapid.IntRange(0, 1).Draw(t, "lateRenewal") == 0 {
+		// frequent shape: the owner of a lapsed registration renews it while list requests are in flight
+		nMut = rapid.IntRange(1, 2).Draw(t, "mutatorsFocused")
+		if targets[0] == 0 { // not gc_worker: its entry never lapses
+			targets[0], targets[1] = targets[1], targets[0]
+		}
+		found := false
+		for i := range c.Seeds {
+			if c.Seeds[i].ID == targets[0] {
+				c.Seeds[i].Exp, found = "expired", true
+			}
+		}
+		if !found {
+			c.Seeds = append(c.Seeds, Seed{ID: targets[0], SP: uint64(rapid.IntRange(0, 9).Draw(t, "lapsedSP")), Exp: "expired"})
+		}
+	}
+	nList := rapid.IntRange(1, 2).Draw(t, "lists")
+	for i := 0; i < nMut; i++ {
+		tk := RaceTask{Kind: "update", ID: targets[i], D: rapid.IntRange(0, 4).Draw(t, "d")}
+		if targets[i] != 0 && rapid.IntRange(0, 5).Draw(t, "del") == 0 {
+			tk = RaceTask{Kind: "delete", ID: targets[i]}
+		}
+		c.Tasks = append(c.Tasks, tk)
+	}
+	for i := 0; i < nList; i++ {
+		c.Tasks = append(c.Tasks, RaceTask{Kind: "list"})
+	}
+	order := rapid.Permutation(c.Tasks).Draw(t, "order")
+	c.Tasks = order
+	for i := 0; i < 8*len(c.Tasks); i++ {
+		c.Sched = append(c.Sched, rapid.IntRange(0, 5).Draw(t, "pick"))
+	}
+	return c
+}
+
+func runRace(c RaceCase) (vkit.Info, error) {
+	var info vkit.Info
+	fx := livesrv.MustGet()
+	if !fx.Healthy() {
+		livesrv.Fatal("C15: server lost leadership / cluster stopped")
+	}
+	w := fx.SwapStorage()
+	defer fx.RestoreStorage()
+	base := w.Base()
+	now0, err := fx.Now()
+	if err != nil {
+		info.Inconclusive = true
+		return info, nil
+	}
+	for _, sd := range c.Seeds {
+		id := svcIDs[sd.ID]
+		exp := int64(math.MaxInt64)
+		switch sd.Exp {
+		case "expired":
+			exp = now0.Unix() - 1000000
+		case "live":
+			exp = now0.Unix() + 1000000
+		}
+		b, _ := json.Marshal(storedSSP{ServiceID: id, ExpiredAt: exp, SafePoint: sd.SP})
+		if err := base.Save(prefixService+id, string(b)); err != nil {
+			return info, err
+		}
+		info.ClassIf(exp < now0.Unix(), "seed-expired")
+	}
+	apiDo(fx, "GET", "/pd/api/v1/gc/safepoint") // build the router outside the schedule
+	s := gate.New()
+	w.SetGate(func(kind, key string) error { return s.Enter(kind, key) })
+	type rec struct {
+		ok, stored bool // acknowledged; found stored (with the requested safe point) right after the acknowledgement
+		sp         uint64
+		err        string
+	}
+	recs := make([]rec, len(c.Tasks))
+	var mu sync.Mutex
+	var wg sync.WaitGroup
+	ctx := context.Background()
+	for i, tk := range c.Tasks {
+		i, tk := i, tk
+		wg.Add(1)
+		s.Go(i, func() {
+			defer wg.Done()
+			s.Enter("start", "")
+			id := svcIDs[tk.ID]
+			var r rec
+			switch tk.Kind {
+			case "update":
+				cur, _ := readServices(base)
+				mn, _ := minOf(cur)
+				r.sp = mn + uint64(tk.D)
+				ttl := int64(1000000)
+				if id == gcWorker {
+					ttl = math.MaxInt64
+				}
+				resp, err := fx.Svr.UpdateServiceGCSafePoint(ctx, &pdpb.UpdateServiceGCSafePointRequest{
+					Header: fx.Header(), ServiceId: []byte(id), TTL: ttl, SafePoint: r.sp})
+				if err != nil {
+					r.err = err.Error()
+				} else if resp.GetHeader().GetError() != nil {
+					r.err = resp.GetHeader().GetError().String()
+				} else {
+					r.ok = true
+					if after, e := readServices(base); e == nil {
+						if en, ok := after[id]; ok && en.SP == r.sp && en.Exp > now0.Unix()+1000 {
+							r.stored = true
+						}
+					}
+				}
+			case "delete":
+				code, body := apiDo(fx, "DELETE", "/pd/api/v1/gc/safepoint/"+id)
+				r.ok = code == http.StatusOK
+				if !r.ok {
+					r.err = body
+				}
+			default:
+				code, body := apiDo(fx, "GET", "/pd/api/v1/gc/safepoint")
+				r.ok = code == http.StatusOK
+				if !r.ok {
+					r.err = body
+				}
+			}
+			mu.Lock()
+			recs[i] = r
+			mu.Unlock()
+		})
+	}
+	fin := s.Run(c.Sched, nil)
+	s.Disable()
+	done := make(chan struct{})
+	go func() { wg.Wait(); close(done) }()
+	select {
+	case <-done:
+	case <-time.After(20 * time.Second):
+		livesrv.Fatal("C15: request goroutines did not finish after the gate was opened")
+	}
+	w.SetGate(nil)
+	if !fin {
+		info.Inconclusive = true
+		info.Class("gate-watchdog")
+		return info, nil
+	}
+	for i, r := range recs {
+		if !r.ok {
+			info.Inconclusive = true
+			info.Class("request-error")
+			_ = i
+			if !fx.Healthy() {
+				livesrv.Fatal("C15: server lost leadership / cluster stopped during a case")
+			}
+			return info, nil
+		}
+	}
+	final, rerr := readServices(base)
+	if rerr != nil {
+		return info, vkit.Errf("at quiescence: %v (trace %v)", rerr, s.Trace)
+	}
+	kept := 0
+	for i, r := range recs {
+		tk := c.Tasks[i]
+		if tk.Kind != "update" || !r.stored {
+			continue
+		}
+		id := svcIDs[tk.ID]
+		en, ok := final[id]
+		if !ok {
+			return info, vkit.Errf("the registration of %q (safe point %d, far expiry) was acknowledged and stored, no other request was asked to touch that id, yet at quiescence it is gone: stored %s (tasks %+v, trace %v)",
+				id, r.sp, fmtState(final), c.Tasks, s.Trace)
+		}
+		if en.SP != r.sp {
+			return info, vkit.Errf("the acknowledged registration of %q has safe point %d at quiescence, registered %d (trace %v)", id, en.SP, r.sp, s.Trace)
+		}
+		kept++
+	}
+	// a final request: gc_worker repaired/kept, minimum not above any live service
+	resp, err := fx.Svr.UpdateServiceGCSafePoint(ctx, &pdpb.UpdateServiceGCSafePointRequest{Header: fx.Header(), ServiceId: []byte("probe"), TTL: -1})
+	if err != nil || resp.GetHeader().GetError() != nil {
+		info.Inconclusive = true
+		info.Class("request-error")
+		return info, nil
+	}
+	na, _ := fx.Now()
+	end, rerr := readServices(base)
+	if rerr != nil {
+		return info, vkit.Errf("after the final request: %v", rerr)
+	}
+	if gw, ok := end[gcWorker]; !ok || gw.Exp != math.MaxInt64 {
+		return info, vkit.Errf("gc_worker entry missing or with finite lifetime after the schedule: %s (trace %v)", fmtState(end), s.Trace)
+	}
+	for k, e := range end {
+		if e.Exp >= na.Unix() && resp.GetMinSafePoint() > e.SP {
+			return info, vkit.Errf("reported minimum %d above the safe point of live service %q: %s (trace %v)", resp.GetMinSafePoint(), k, fmtState(end), s.Trace)
+		}
+	}
+	nUpd, nList := 0, 0
+	for _, tk := range c.Tasks {
+		if tk.Kind == "update" {
+			nUpd++
+		}
+		if tk.Kind == "list" {
+			nList++
+		}
+	}
+	info.ClassIf(kept > 0, "acknowledged-registration-kept")
+	info.NonTrivial = kept >= 1 && nList >= 1
+	return info, nil
+}
+
 // ------------------------------------------------------------ (b) service safe points
 
 // indices 0-5: what TiDB/BR/TiCDC send (plus the empty id); 6: a benign id with a slash; 7-13: ids that path
@@ -567,8 +849,11 @@ func genSvc(t *rapid.T) SvcCase {
 	for i := 0; i < n; i++ {
 		var op SOp
 		op.Kind = "update"
-		if rapid.IntRange(0, 11).Draw(t, "kind") == 7 {
+		switch rapid.IntRange(0, 11).Draw(t, "kind") {
+		case 7:
 			op.Kind = "apidelete"
+		case 9:
+			op.Kind = "list" // GET /pd/api/v1/gc/safepoint: read-only
 		}
 		op.ID = rapid.SampledFrom([]int{0, 0, 0, 1, 1, 1, 2, 2, 3, 3, 4, 4, 5, 6, 7, 7, 8, 9, 10, 11, 12, 13, 14, 14, 15, 16, 16, 17, 17, 18, 19, 20}).Draw(t, "id")
 		if op.Kind == "update" {
@@ -800,6 +1085,21 @@ func runSvc(c SvcCase) (vkit.Info, error) {
 			continue
 		}
 		info.ClassIf(hostile, "hostile-id")
+		if op.Kind == "list" {
+			rawBefore := rawServices(base)
+			code, body := apiDo(fx, "GET", "/pd/api/v1/gc/safepoint")
+			if code != http.StatusOK {
+				return inconclusive("request-error")
+			}
+			if rawAfter := rawServices(base); rawAfter != rawBefore {
+				return info, vkit.Errf("%s: GET /gc/safepoint (answer %.200s) changed what is stored: %s  =>  %s", where(), body, rawBefore, rawAfter)
+			}
+			if gerr := checkGC(where()); gerr != nil {
+				return info, gerr
+			}
+			info.Class("op-list")
+			continue
+		}
 		if op.Kind == "apidelete" {
 			// DELETE /pd/api/v1/gc/safepoint/{service_id} is storage.RemoveServiceGCSafePoint
 			err := fx.Svr.GetStorage().RemoveServiceGCSafePoint(id)
